@@ -199,6 +199,25 @@ func checkC08(r *report.Report, tier string, seed int64) error {
 		}
 		return gen.SignatureCase(seed, i, ms, sigTypes, nil)
 	}
+	// "each method yields exactly one function", also when several interfaces use the same method names and receiver identifier
+	selOpt := gen.DefaultOptions()
+	selOpt.WellFormed = true
+	selOpt.MaxInterfaces = 3
+	selOpt.MaxFields = 3
+	selOpt.Explicit = 0.1
+	selOpt.Hooks = 0
+	if err := pipelineCheck(r, "C08", seed, tierN(tier, 48, 600), selOpt, func(i int) *gen.Case { return gen.GenerateSelection(seed, i, selOpt) }, nil,
+		func(cr *caseRun) [][2]string {
+			var vs [][2]string
+			for _, v := range c17Oracle(cr) {
+				if v[0] == "number-of-generated-functions-differs-from-number-of-methods" || v[0] == "method-of-marked-interface-without-function" {
+					vs = append(vs, [2]string{"not-exactly-one-function-per-method", v[1]})
+				}
+			}
+			return vs
+		}); err != nil {
+		return err
+	}
 	return pipelineCheck(r, "C08", seed, len(groups), gen.Options{}, mk, nil, func(cr *caseRun) [][2]string {
 		g := groups[cr.C.Index]
 		var vs [][2]string
